@@ -43,7 +43,11 @@ class Call:
     @property
     def trait(self): return self.hdr.get('trait')
     @property
-    def self_ty(self): return self.hdr.get('self')
+    def self_ty(self):
+        st = self.hdr.get('self')
+        if st is None and self.hdr.get('trait') and self.gargs:
+            return self.gargs[0]          # provided trait method: Self is the first generic argument
+        return st
     @property
     def line(self): return self.span['lo'] if self.span else 0
     @property
